@@ -70,3 +70,13 @@ func verifLemmaAvcSeqHeaderRoundTrip(sps, pps []byte) ([]byte, []byte, error, er
 //@   safety C05
 //@   ensures [C19.avc.list.frame] len(NaluStartCode4) == old(len(NaluStartCode4))
 //@ end
+
+// C19: bare SPS/PPS -> Annex-B: start code, the SPS bytes, start code, the PPS bytes, for all lengths.
+//@ func BuildSpsPps2Annexb
+//@   props C19
+//@   assumes len(NaluStartCode4) == 4 && NaluStartCode4[0] == 0 && NaluStartCode4[1] == 0 && NaluStartCode4[2] == 0 && NaluStartCode4[3] == 1
+//@   ensures [C19.annexb.build.len] len(result) == 8 + len(sps) + len(pps)
+//@   ensures [C19.annexb.build.sc]  result[0] == 0 && result[1] == 0 && result[2] == 0 && result[3] == 1 && result[4+len(sps)] == 0 && result[5+len(sps)] == 0 && result[6+len(sps)] == 0 && result[7+len(sps)] == 1
+//@   ensures [C19.annexb.build.sps] int: forall j in [0, len(sps)) :: result[4+j] == sps[j]
+//@   ensures [C19.annexb.build.pps] int: forall j in [0, len(pps)) :: result[8+len(sps)+j] == pps[j]
+//@ end
